@@ -629,3 +629,19 @@ Proof.
         cbn [find_node] in Ev. destruct (Z.eqb_spec (n_uid y) v); [discriminate|].
         destruct Hx as [->|Hx]; [contradiction|auto].
 Qed.
+
+(* ------------------------------------------------------------------------- *)
+(** * calls that name a parent which is not the node's parent: refused, nothing changes
+      (whatever children that other parent has -- in particular one of the node's name) *)
+
+Lemma wrong_parent_refused : forall to_end t p u r nm np,
+  find_node t u = Some r -> n_parent r <> p ->
+  step_table to_end t (ODelete p u) = (t, RErr) /\
+  step_table to_end t (ORename p u nm) = (t, RErr) /\
+  step_table to_end t (OMove p u np) = (t, RErr).
+Proof.
+  intros to_end t p u r nm np Hf Hp.
+  assert (E : (n_parent r =? p) = false) by (apply Z.eqb_neq; exact Hp).
+  cbn [step_table]. unfold op_delete, op_rename, op_move. rewrite Hf, E. cbn [andb].
+  repeat split. destruct (find_node t np); reflexivity.
+Qed.
